@@ -15,7 +15,7 @@
     concrete encoders.  Allocation failures (C19) and the 2^31 truncations of the size fields are not modelled:
     the theorems carry the corresponding size hypotheses. *)
 From Coq Require Import NArith ZArith List Bool.
-From Carquet Require Import Base.Res Gen.Enums_gen Enc.DeltaBits Enc.PlainModel Enc.RleModel Util.Crc32Model
+From Carquet Require Import Base.Res Gen.Enums_gen Gen.Writer_gen Enc.DeltaBits Enc.PlainModel Enc.RleModel Util.Crc32Model
      Stats.Order Stats.StatsBuilderModel Writer.TableSpec.
 Import ListNotations.
 Local Open Scope N_scope.
@@ -128,10 +128,11 @@ Definition add_values (w : pw) (b : batch) : res pw :=
 
 (** carquet_page_writer_estimated_size *)
 Definition estimated_levels_size (count : N) (max_level : N) : N :=
-  if count =? 0 then 0 else 4 + (count * N.of_nat (bit_width_for_max max_level) + 7) / 8.
+  if count =? 0 then 0
+  else Writer_LEVEL_PREFIX + (count * N.of_nat (bit_width_for_max max_level) + Writer_LEVEL_ROUND) / Writer_LEVEL_DIV.
 
 Definition estimated_size (w : pw) : N :=
-  len (p_values w) + estimated_levels_size (len (p_defs w)) (max_def (p_col w)) + 64.
+  len (p_values w) + estimated_levels_size (len (p_defs w)) (max_def (p_col w)) + Writer_PAGE_OVERHEAD.
 
 Section Finalize.
   (** compress_data for the writer's codec: bytes in, bytes out *)
